@@ -7,7 +7,9 @@ use std::sync::Arc;
 verus! {
 //@include contracts/v/float_prelude.rs
 #[verifier::external_body] #[verifier::reject_recursive_types(T)] pub struct Array1<T> { _p: core::marker::PhantomData<T> }
-#[verifier::external_body] #[verifier::reject_recursive_types(T)] pub struct EosResult<T> { _p: core::marker::PhantomData<T> }
+// EosResult is a real `Result`, so that `?` / `Ok(..)` in a variant of `build` type-check
+#[verifier::external_body] pub struct EosError { _p: () }
+pub type EosResult<T> = Result<T, EosError>;
 #[verifier::external_body] #[verifier::reject_recursive_types(E)] pub struct State<E> { _p: core::marker::PhantomData<E> }
 #[verifier::external_body] #[verifier::reject_recursive_types(T)] pub struct Density<T = f64> { _p: core::marker::PhantomData<T> }
 #[verifier::external_body] #[verifier::reject_recursive_types(T)] pub struct Moles<T = f64> { _p: core::marker::PhantomData<T> }
